@@ -270,12 +270,13 @@ def run_items(mod, items, nproc, deadline, col):
 
         ctx = mp.get_context("spawn")
         maxtasks = getattr(mod, "RECYCLE_AFTER", None)
-        with ctx.Pool(
+        pool = ctx.Pool(
             min(nproc, len(items)),
             initializer=_worker_init,
             initargs=(modname, uses_jax),
             maxtasksperchild=maxtasks,
-        ) as pool:
+        )
+        try:
             it = pool.imap_unordered(_worker_run, items, chunksize=1)
             while True:
                 try:
@@ -288,10 +289,29 @@ def run_items(mod, items, nproc, deadline, col):
                 herr = herr or c.extra.pop("__harness_error__", None)
                 slow.append(c.extra.pop("__item_time__", 0))
                 col.merge(c)
-            pool.terminate()
+        finally:
+            # a worker stuck in native code (e.g. a checkpoint library's thread pool) must not hang the check: workers are
+            # killed outright, then the pool is torn down
+            import threading
+
+            workers = list(getattr(pool, "_pool", []))
+            th = threading.Thread(target=pool.terminate, daemon=True)
+            th.start()
+            th.join(20.0)
+            if th.is_alive():
+                for p in workers:
+                    try:
+                        p.kill()
+                    except Exception:  # noqa: BLE001
+                        pass
+                th.join(5.0)
+                _HUNG_TEARDOWN.append(True)
     col.extra.pop("__item_time__", None)
     col.extra.pop("__harness_error__", None)
     return done, herr, slow
+
+
+_HUNG_TEARDOWN = []  # set when a worker had to be killed: the interpreter is then left with os._exit (atexit would join the pool)
 
 
 def validate_evidence(path):
@@ -482,4 +502,9 @@ def replay(mod, pid, path):
 
 
 if __name__ == "__main__":
-    sys.exit(main())
+    _rc = main()
+    if _HUNG_TEARDOWN:
+        sys.stdout.flush()
+        sys.stderr.flush()
+        os._exit(_rc if isinstance(_rc, int) else 0)
+    sys.exit(_rc)
